@@ -73,7 +73,8 @@ def stable_key(site):
     msg = site.get("msg", "")
     if kind.startswith("assert:"):
         k = re.sub(r"\s*\{.*", "", kind)  # BoundsCheck { len: .. } -> BoundsCheck
-        return "%s|%s|%s" % (fn, k, msg)
+        # operand types / constants, never the source text of the expression (a rename must not change the key)
+        return "%s|%s|%s" % (fn, k, site.get("shape") or msg)
     if kind.startswith("panic:"):
         return "%s|%s|%s" % (fn, kind, msg if msg else "-")
     return "%s|%s|%s" % (fn, kind, msg)
@@ -115,5 +116,5 @@ def classify(sites, assume):
 
 
 def site_report(s):
-    return {"rule": "panic obligation not discharged", "function": s["inst"], "kind": s["kind"], "message": s.get("msg"), "site": s["site"],
+    return {"rule": "panic obligation not discharged", "function": s["inst"], "kind": s["kind"], "message": s.get("msg"), "operands": s.get("shape"), "site": s["site"],
             "abstract_witness": s.get("witness"), "reached_from_roots": s.get("roots"), "call_paths": s.get("ctxs")}
